@@ -147,6 +147,7 @@ func runC14(c *Ctx) {
 		}
 	}
 	c.Extra("functions_in_scope", len(scope))
+	curScope = scope
 	checkErrValueUse(c, "R14.7", scope)
 	checkLoopBounds(c, "R14.8", scope)
 	checkDependencyPanics(c, "R14.9", ri)
@@ -616,6 +617,70 @@ func checkIndexSite(c *Ctx, f *ssa.Function, in ssa.Instruction, x, idx ssa.Valu
 			if call, ok := mk.Len.(*ssa.Call); ok {
 				if bi, ok := call.Call.Value.(*ssa.Builtin); ok && bi.Name() == "len" && !sameValue(call.Call.Args[0], rng) {
 					c.Fail("R14.2", key, in.Pos(), "the index ranges over "+describeVal(rng)+" but the operand was made with the length of "+describeVal(call.Call.Args[0])+": nothing relates the two lengths")
+					return
+				}
+			}
+		}
+	}
+	// a constant index into a slice parameter: what the callers pass decides it. Every static call site in the module is asked
+	// for the least number of elements it can pass (a literal's length, appends that happen on every path, the smaller of two
+	// branches; appends inside loops and conditionals do not count).
+	if k, isK := idx.(*ssa.Const); isK && k.Value != nil && k.Int64() >= 0 {
+		if prm, isPrm := x.(*ssa.Parameter); isPrm {
+			pi := -1
+			for i, q := range f.Params {
+				if q == prm {
+					pi = i
+				}
+			}
+			need := k.Int64() + 1
+			sites, short, unknown := 0, "", false
+			for _, g := range curScope {
+				allCalls(g, func(call ssa.CallInstruction) {
+					if call.Common().StaticCallee() != f || pi < 0 || pi >= len(call.Common().Args) {
+						return
+					}
+					sites++
+					m := minLenOf(call.Common().Args[pi], map[ssa.Value]bool{}, 0)
+					switch {
+					case m < 0:
+						unknown = true
+					case m < need && short == "":
+						short = fmt.Sprintf("%s can pass %d element(s) at %s", shortFn(g), m, c.rel(call.Pos()))
+					}
+				})
+			}
+			// what the path to the index knows about the length
+			lower := int64(0)
+			for _, cd := range controlConds(in.Block()) {
+				if bo, ok := cd.v.(*ssa.BinOp); ok {
+					if lc, ok := bo.X.(*ssa.Call); ok {
+						if bi, ok := lc.Call.Value.(*ssa.Builtin); ok && bi.Name() == "len" && lc.Call.Args[0] == x {
+							if kk, ok := bo.Y.(*ssa.Const); ok && kk.Value != nil {
+								v := kk.Int64()
+								switch {
+								case bo.Op == token.GTR && cd.pol, bo.Op == token.LEQ && !cd.pol:
+									lower = max(lower, v+1)
+								case bo.Op == token.GEQ && cd.pol, bo.Op == token.LSS && !cd.pol:
+									lower = max(lower, v)
+								case bo.Op == token.NEQ && cd.pol && v == 0, bo.Op == token.EQL && !cd.pol && v == 0:
+									lower = max(lower, 1)
+								case bo.Op == token.EQL && cd.pol:
+									lower = max(lower, v)
+								}
+							}
+						}
+					}
+				}
+			}
+			if lower < need && sites > 0 {
+				switch {
+				case short != "":
+					c.Fail("R14.2", key, in.Pos(), fmt.Sprintf("the path to this index knows the slice to hold at least %d element(s), the index needs %d, and %s: the index panics", lower, need, short),
+						"a pattern that leaves the list empty, e.g. a{0} or a sub-expression made of anchors only")
+					return
+				case !unknown:
+					c.Pass("R14.2", key, in.Pos(), fmt.Sprintf("every one of the %d call sites passes at least %d element(s)", sites, need))
 					return
 				}
 			}
@@ -2643,4 +2708,70 @@ func reachingStores(ld *ssa.UnOp, a *ssa.Alloc) (vals []ssa.Value, fromEntry boo
 	}
 	scan(b, idx-1)
 	return vals, fromEntry
+}
+
+// curScope: the functions in C14's scope, for rules that look at call sites.
+var curScope []*ssa.Function
+
+// minLenOf: the least number of elements the slice value v is known to hold (-1: nothing is known). Appends on every path
+// count; a phi is as short as its shortest edge (an edge that depends on the phi itself can only be longer).
+func minLenOf(v ssa.Value, seen map[ssa.Value]bool, depth int) int64 {
+	if depth > 12 {
+		return -1
+	}
+	switch x := v.(type) {
+	case *ssa.Const:
+		if x.IsNil() {
+			return 0
+		}
+	case *ssa.MakeSlice:
+		if k, ok := x.Len.(*ssa.Const); ok && k.Value != nil {
+			return k.Int64()
+		}
+		return 0
+	case *ssa.Slice:
+		if al, ok := x.X.(*ssa.Alloc); ok && x.Low == nil {
+			if arr, ok := al.Type().Underlying().(*types.Pointer).Elem().Underlying().(*types.Array); ok {
+				if x.High == nil {
+					return arr.Len()
+				}
+				if k, ok := x.High.(*ssa.Const); ok && k.Value != nil {
+					return k.Int64()
+				}
+			}
+		}
+		return -1
+	case *ssa.Call:
+		if bi, ok := x.Call.Value.(*ssa.Builtin); ok && bi.Name() == "append" && len(x.Call.Args) >= 1 {
+			base := minLenOf(x.Call.Args[0], seen, depth+1)
+			if base < 0 {
+				return -1
+			}
+			if len(x.Call.Args) == 2 {
+				if add := minLenOf(x.Call.Args[1], seen, depth+1); add > 0 {
+					return base + add
+				}
+			}
+			return base
+		}
+		return -1
+	case *ssa.Phi:
+		if seen[x] {
+			return 1 << 40 // the loop-carried edge: never the shortest
+		}
+		seen[x] = true
+		best := int64(1 << 40)
+		for _, e := range x.Edges {
+			m := minLenOf(e, seen, depth+1)
+			if m < 0 {
+				return -1
+			}
+			if m < best {
+				best = m
+			}
+		}
+		delete(seen, x)
+		return best
+	}
+	return -1
 }
